@@ -91,4 +91,5 @@ var staticFns = map[reflect.Type]func(fx *fixture, withCtx bool) interface{}{
 	reflect.TypeOf(CA3{}): staticFn[CA3], reflect.TypeOf(CA4{}): staticFn[CA4],
 	reflect.TypeOf(CA5{}): staticFn[CA5], reflect.TypeOf(CA6{}): staticFn[CA6],
 	reflect.TypeOf(CA7{}): staticFn[CA7], reflect.TypeOf(CA8{}): staticFn[CA8],
+	reflect.TypeOf(Wide{}): staticFn[Wide],
 }
